@@ -16,8 +16,11 @@ class QTable:
         self.epsilon = 0.1
 
     def get_state(self, density, distance) -> float:
-        density_range = next(i for i, r in enumerate(self.density_ranges) if density <= r[1])
-        distance_range = next(i for i, r in enumerate(self.distance_ranges) if distance <= r[1])
+        # a density / distance above the last range (or not a number) belongs to the last range
+        density_range = next((i for i, r in enumerate(self.density_ranges) if density <= r[1]), len(self.density_ranges) - 1)
+        distance_range = next(
+            (i for i, r in enumerate(self.distance_ranges) if distance <= r[1]), len(self.distance_ranges) - 1
+        )
         return density_range * 3 + distance_range
 
     def get_action(self, state) -> int:
